@@ -112,6 +112,10 @@ func main() {
 				{"Provider", "findBlock", "providerFindBlock"},
 				{"Provider", "GetToken", "providerGetToken"},
 			}},
+			{"frac/token/block_loader.go", []fn{
+				{"Block", "GetValByTID", "blockGetValByTID"},
+				{"Block", "unpack", "blockUnpack"},
+			}},
 			{"frac/token/table_loader.go", []fn{
 				{"TableLoader", "load", "tableLoaderLoad"},
 				{"TableLoader", "readBlock", "tableLoaderReadBlock"},
@@ -155,5 +159,5 @@ func main() {
 				e.Strs(x.def, skeleton(f, fd), fl.path+": statement skeleton of "+x.name)
 			}
 		}
-	}, "pattern/substring.go", "pattern/pattern.go", "frac/token/table.go", "frac/token/provider.go", "frac/token/table_loader.go", "frac/token/table_entry.go", "frac/active_token_list.go", "util/util.go", "frac/disk_blocks_writer.go", "frac/disk_blocks_producer.go", "frac/disk_blocks.go", "parser/token_literal.go", "parser/token_range.go", "parser/token_parser.go", "frac/sealed_index.go")
+	}, "pattern/substring.go", "pattern/pattern.go", "frac/token/table.go", "frac/token/provider.go", "frac/token/block_loader.go", "frac/token/table_loader.go", "frac/token/table_entry.go", "frac/active_token_list.go", "util/util.go", "frac/disk_blocks_writer.go", "frac/disk_blocks_producer.go", "frac/disk_blocks.go", "parser/token_literal.go", "parser/token_range.go", "parser/token_parser.go", "frac/sealed_index.go")
 }
